@@ -197,9 +197,6 @@ func (f *frame) unop(x *ssa.UnOp) {
 		}
 		v := f.load(addr, T, f.ptrDescOf(x.X))
 		f.setVal(x, v)
-		if hasRefs(T) {
-			f.vc.assume(f.tt().typeInv(f.vals[x], T, f.curAlloc()))
-		}
 	case token.NOT:
 		f.setVal(x, mkNot(f.val(x.X)))
 	case token.SUB:
